@@ -1,7 +1,7 @@
 (* C02 — delpaths at heap level: mark every path with update (one allocator), then sweep what the
    allocator owns; on a heap with the ownership invariant this denotes Path.delpaths. *)
 From Coq Require Import List ZArith NArith Bool Lia.
-From Verif Require Import c02.Path c02.PathProofs c02.HeapPath c02.HeapInv c02.HeapProofs c02.HeapSlice c02.HeapAbs c02.HeapSweep.
+From Verif Require Import c02.Path c02.PathProofs c02.HeapPath c02.HeapInv c02.HeapProofs c02.HeapSlice c02.HeapInner c02.HeapAbs c02.HeapSweep.
 Import ListNotations.
 Open Scope nat_scope.
 
@@ -28,7 +28,7 @@ Lemma update_step : forall p h ps v j fp n jn,
   end.
 Proof.
   intros p h ps v j fp n jn (Hwf & Hcl & Hr & ND) Hn Hp.
-  pose proof (update_sound_ok current p Hp h ps v j fp n jn Hwf Hr ND Hn) as H.
+  pose proof (update_sound_ok current p eq_refl Hp h ps v j fp n jn Hwf Hr ND Hn) as H.
   destruct (Path.update j p jn) as [j'|]; auto.
   destruct H as (h' & ps' & u & fp' & Hu & Hr' & ND' & Hpost).
   exists h', ps', u, fp'. split; auto.
